@@ -19,7 +19,7 @@ FDS = [100, 3, 0, 7]
 # sha256 of the anchored part of unixfd.rs (everything above `impl Signature for UnixFd`), with
 # whitespace removed, at the time the model was written; a different text makes the quick tier
 # run a larger sample (drift is never reported as a violation by itself)
-ANCHOR_SHA = "d41247189ab5ae74"
+ANCHOR_SHAS = ("d41247189ab5ae74", "b9292dc45bd8d253")  # before / after the atomic-shim hook (two added `use` lines)
 
 
 # ----------------------------------------------------------------------------- programs
@@ -291,10 +291,11 @@ def property_violations(fd0, progs, out):
 # ----------------------------------------------------------------------------- running
 
 class Runner:
-    def __init__(self, ctx, exe, model):
+    def __init__(self, ctx, exe, model, mode="shim"):
         self.ctx = ctx
         self.exe = exe
         self.model = model
+        self.model_run = "run" if mode == "shim" else "run-legacy"
         self.failing = []       # (line, impl_out, model_out, violations)
         self.disagree = []      # (line, impl_out, model_out)
         self.nviol = 0
@@ -321,7 +322,7 @@ class Runner:
                 rc, again, _ = vlib.run_lines(self.exe, [], [lines[k]], timeout=1200, env={"C12_WATCHDOG_S": "600"})
                 if rc == 0 and len(again) == 1:
                     impl[k] = again[0]
-        ok, mod, err = vlib.par_run_lines(self.model, ["run"], lines, timeout=3600)
+        ok, mod, err = vlib.par_run_lines(self.model, [self.model_run], lines, timeout=3600)
         if not ok:
             raise vlib.BrokenTie("model driver failed", err[-2000:])
         for line, a, b in zip(lines, impl, mod):
@@ -456,6 +457,45 @@ def cross_check_extraction(ctx, model, lines):
             return
 
 
+def probe_mode(exe):
+    try:
+        p = subprocess.run([exe, "--probe"], stdout=subprocess.PIPE, stderr=subprocess.PIPE, text=True, timeout=120)
+        m = p.stdout.strip()
+    except Exception:
+        m = ""
+    return m if m in ("shim", "legacy") else "legacy"
+
+
+def shim_required():
+    """the atomic shim is a second hook commit; once it is recorded its absence breaks the tie"""
+    try:
+        import json
+        h = json.load(open(os.path.join(vlib.VERIF, "manifest.d", "_hooks.json")))
+        return len(h.get("source_commits", [])) >= 2
+    except Exception:
+        return False
+
+
+def stress_test(ctx, exe, rounds):
+    try:
+        p = subprocess.run([exe, "--stress", str(rounds)], stdout=subprocess.PIPE, stderr=subprocess.PIPE, text=True, timeout=1800)
+        out = p.stdout.strip()
+    except subprocess.TimeoutExpired:
+        out = "TIMEOUT"
+    m = re.match(r"^rounds=(\d+) double_take=(\d+) wrong_value=(\d+) bad_close=(\d+)$", out)
+    ctx.extra["stress_test"] = {"what": "TEST, not proof: uncontrolled real threads, two spinning takers per round on a fresh UnixFd",
+                                "result": out}
+    if not m:
+        ctx.tie_broken("stress stream of the harness did not complete", out[-500:])
+        return
+    n, dt, wv, bc = (int(x) for x in m.groups())
+    ctx.count("stress_test_rounds", n)
+    if dt or wv or bc:
+        ctx.violation("UnixFd shared between threads (uncontrolled stress run): %d of %d rounds had two successful takes, %d a wrong "
+                      "value, %d a wrong number of closes" % (dt, n, wv, bc),
+                      {"stress_rounds": n, "impl": out, "expected": "rounds=%d double_take=0 wrong_value=0 bad_close=0" % n})
+
+
 def report(ctx, rn):
     # property violations found on the implementation's own outputs
     if rn.failing:
@@ -471,7 +511,7 @@ def report(ctx, rn):
             so = outs[0] if outs else a
             fd0, progs, sched = parse_line(small)
             sv = property_violations(fd0, progs, so) or v
-            rc, mo, _ = vlib.run_lines(rn.model, ["run"], [small], timeout=120)
+            rc, mo, _ = vlib.run_lines(rn.model, [rn.model_run], [small], timeout=120)
             ctx.violation("UnixFd shared between threads: " + "; ".join(sv),
                           {"line": small, "input": {"fd0": fd0, "programs": [list(p) for p in progs], "schedule": sched},
                            "impl": so, "expected": mo[0] if mo else b, "violated": sv,
@@ -483,14 +523,17 @@ def report(ctx, rn):
         line, a, b = rn.disagree[0]
         only_points = all(x.split(";")[:3] == y.split(";")[:3] for _, x, y in rn.disagree)
         if only_points:
-            ctx.tie_broken("correspondence: return values and dup/close calls agree, but the implementation passes a different "
-                           "sequence of atomic actions (verif_hooks points) than the model on %d cases: the model no longer "
-                           "mirrors unixfd.rs step by step" % len(rn.disagree),
+            ctx.tie_broken("correspondence relation `harness line = observe fd0 progs sched` (coq/Fd/Concurrent.v, Definition observe) "
+                           "no longer checks in its 4th component (exec_obs: the sequence of atomic operations and system calls): "
+                           "return values and dup/close calls agree, but the implementation performs a different sequence of "
+                           "atomic operations than the model on %d cases - the model no longer mirrors unixfd.rs step by step, "
+                           "so the theorems of Properties/C12.v are about different code" % len(rn.disagree),
                            "first (shortest) input: %s\nimpl : %s\nmodel: %s" % (line, a, b))
             return
-        ctx.tie_broken("correspondence: the model (exec over the same schedule) and the implementation disagree on "
-                       "%d of the cases, and the property predicate does not fail on any output of the implementation"
-                       % len(rn.disagree),
+        ctx.tie_broken("correspondence relation `harness line = observe fd0 progs sched` (coq/Fd/Concurrent.v, Definition observe: "
+                       "return values, dup/close calls, open descriptors, sequence of atomic operations) no longer checks: model and "
+                       "implementation disagree on %d of the cases, and the property predicate does not fail on any output of the "
+                       "implementation" % len(rn.disagree),
                        "first (shortest) disagreeing input: %s\nimpl : %s\nmodel: %s" % (line, a, b))
 
 
@@ -511,7 +554,7 @@ def setup(ctx):
         "Coq 8.16.1 kernel incl. vm_compute (Print Assumptions: closed under the global context)",
         "std::sync::Arc modelled: clone = atomic increment, drop = atomic decrement, destructor runs once in the thread that reached 0",
         "AtomicI32 SeqCst operations modelled as interleaving semantics (no weak-memory effects; the code uses SeqCst only)",
-        "verif_hooks points mark every atomic action of unixfd.rs (add-only cfg feature; Arc::clone's point is supplied by the harness)",
+        "verif_hooks (add-only cfg feature): the atomic cell of unixfd.rs is atomic_shim::AtomicI32, every access to it is a scheduling point named after the operation; dup/close go through nix_shim; the Arc decrement has a point in a cfg-only Drop impl; Arc::clone's point is supplied by the harness (std::sync::Arc itself is not instrumented)",
         "schedule controller harness/src/bin/c12.rs (Mutex/Condvar hand-over, simulated dup/close table) and its OCaml counterpart ocaml/c12/driver.ml",
         "OCaml extraction (ExtrOcamlBasic only), cross-checked against vm_compute on a sample each run",
         "checks/c12.py: generators, string comparison, property predicate",
@@ -529,11 +572,21 @@ def run(ctx):
     ctx.try_proof()
     exe = vlib.harness_build(["c12"], features=("verif_hooks",))["c12"]
     model = vlib.ocaml_build("c12")
-    rn = Runner(ctx, exe, model)
+    mode = probe_mode(exe)
+    ctx.extra["atomic_shim"] = mode
+    if mode != "shim":
+        msg = ("the crate under test does not route UnixFdInner's atomic cell through verif_hooks::atomic_shim "
+               "(patch notes/patches/c12-atomic-shim.diff): the controller then stops threads only at the label points, "
+               "'one point = one atomic operation' is assumed and a non-atomic read-modify-write between two points is invisible")
+        if shim_required():
+            ctx.tie_broken("tie: atomic shim hook missing from the crate although manifest.d/_hooks.json records it", msg)
+        else:
+            ctx.assumptions.append("LEGACY MODE (atomic shim hook not yet in /repo): " + msg)
+    rn = Runner(ctx, exe, model, mode)
     rng = ctx.rng
     thorough = ctx.tier == "thorough"
     sha = anchor_sha()
-    drift = sha != ANCHOR_SHA
+    drift = sha not in ANCHOR_SHAS
     ctx.extra["anchor_text_sha"] = sha
     ctx.extra["anchor_drift"] = drift
 
@@ -605,6 +658,9 @@ def run(ctx):
             if len(rn.failing) > 2000:
                 break
 
+    # --- a plain real-thread stress stream (a TEST, never cited as proof): two spinning takers on a fresh descriptor
+    stress_test(ctx, exe, 3000000 if thorough else 200000)
+
     # --- the extracted model against Coq itself
     for k in range(0, len(sample_for_coq), 400):
         cross_check_extraction(ctx, model, sample_for_coq[k:k + 400])
@@ -616,6 +672,14 @@ def replay(ctx, body):
     setup(ctx)
     data = body.get("data", {})
     line = data.get("line")
+    if not line and data.get("stress_rounds"):
+        exe = vlib.harness_build(["c12"], features=("verif_hooks",))["c12"]
+        p = subprocess.run([exe, "--stress", str(data["stress_rounds"])], stdout=subprocess.PIPE, text=True, timeout=1800)
+        out = p.stdout.strip()
+        print("stress stream (a test; probabilistic): %s" % out)
+        bad = not re.match(r"^rounds=\d+ double_take=0 wrong_value=0 bad_close=0$", out)
+        print("REPRODUCED: property C12 violated in an uncontrolled run" if bad else "not reproduced in this run (the stress stream is probabilistic)")
+        return 1 if bad else 0
     if not line:
         print("replay file carries no input line (it records a broken proof/correspondence): %s" % body.get("what"))
         print(str(data)[:3000])
@@ -623,7 +687,7 @@ def replay(ctx, body):
     exe = vlib.harness_build(["c12"], features=("verif_hooks",))["c12"]
     model = vlib.ocaml_build("c12")
     rc, impl, err = vlib.run_lines(exe, [], [line], timeout=120)
-    rc2, mod, err2 = vlib.run_lines(model, ["run"], [line], timeout=120)
+    rc2, mod, err2 = vlib.run_lines(model, ["run" if probe_mode(exe) == "shim" else "run-legacy"], [line], timeout=120)
     fd0, progs, sched = parse_line(line)
     a = impl[0] if impl else "<no output> " + err[-500:]
     b = mod[0] if mod else "<no output> " + err2[-500:]
